@@ -274,8 +274,8 @@ def gen_keys(rng, n, style=None):
         while len(keys) < n:
             keys.add(rng.getrandbits(32))
         return [[k, 0xffffffff] for k in sorted(keys, key=lambda k: rng.random())], []
-    bits = sorted(rng.sample(range(32), 4)) if rng.random() < 0.5 else [0, 1, 2, 3]
-    base = rng.getrandbits(32) if rng.random() < 0.5 else 0
+    bits = sorted(rng.sample(range(32), 4)) if rng.random() < 0.25 else [0, 1, 2, 3]
+    base = rng.getrandbits(32) if rng.random() < 0.25 else 0
     for b in bits:
         base &= ~(1 << b)
     px = 0.0 if style == "window" else rng.choice([0.2, 0.35, 0.5])
@@ -283,8 +283,8 @@ def gen_keys(rng, n, style=None):
     tries = 0
     while len(out) < n:
         tries += 1
-        if tries > 400:
-            px = 0.0
+        if tries > 200:           # the patterns chosen so far leave no room: start again without X bits
+            px, out, tries = 0.0, [], 0
         key, mask = base, 0xffffffff
         for b in bits:
             if rng.random() < px:
@@ -452,6 +452,7 @@ def run_pipeline(env, desc, prepared=None):
     vs, vr, nets, net_keys, cons = prepared or env.graph(desc)
     place, pkw = env.placer(desc)
     methods = tuple(env.method[m] for m in desc["methods"])
+    random.seed(desc["placer_seed"])     # the router (and default placers) draw from the global generator
     try:
         if desc["pipeline"] == "hand":
             machine = env.machine(desc)
@@ -637,9 +638,7 @@ def run(tier="quick", seed=0):
                 samples.append(public(desc))
         return out
 
-    with warnings.catch_warnings():
-        warnings.simplefilter("ignore")
-
+    def body():
         # ---- family S: structural enumeration
         shapes = []
         for k in (1, 2, 3):
@@ -660,7 +659,7 @@ def run(tier="quick", seed=0):
                             evaluate(desc)
 
         # ---- family R: seeded random problems
-        for _ in range(26000 if thorough else 2600):
+        for _ in range(120000 if thorough else 9000):
             desc = finish(gen_machine(rng))
             gen_graph(rng, desc)
             gen_constraints(rng, desc)
@@ -670,7 +669,7 @@ def run(tier="quick", seed=0):
             evaluate(desc)
 
         # ---- family K: key-dense problems, one routing, several key assignments
-        for _ in range(4000 if thorough else 330):
+        for _ in range(30000 if thorough else 2200):
             desc = finish(gen_machine(rng))
             desc["cores"] = max(desc["cores"], 3)
             nv = rng.randint(2, 4)
@@ -697,6 +696,7 @@ def run(tier="quick", seed=0):
             prepared = env.graph(desc)
             vs, vr, gnets, _, cons = prepared
             try:
+                random.seed(desc["placer_seed"])
                 place, pkw = env.placer(desc)
                 machine = env.machine(desc)
                 cons2 = cons + [env.C.ReserveResourceConstraint(env.Cores, slice(0, 1))] + env.busy_constraints(desc)
@@ -735,7 +735,15 @@ def run(tier="quick", seed=0):
                     return out
                 evaluate(d2, prepared, routed)
 
+    global_state = random.getstate()
+    try:
+        with warnings.catch_warnings():
+            warnings.simplefilter("ignore")
+            body()
+    finally:
+        random.setstate(global_state)
     seconds = time.time() - t0
+    stats.update({"clause:" + c: n for c, n in per_clause.items()})
     return {"name": "c01_delivery", "evaluations": ev, "distinct_nontrivial": len(distinct),
             "rule": "one evaluation = one real pipeline run (place_and_route_wrapper / wrapper / hand chain) on one generated "
                     "problem + packet walks for every concrete key of every net; non-trivial = mapped successfully and some "
